@@ -405,3 +405,33 @@ func SubjectMatches(pattern, subject string) bool {
 	}
 	return len(pt) == len(st)
 }
+
+// Route returns the subscriptions a message on subject would be delivered
+// to, with NATS semantics (every matching plain subscription, one member per
+// queue group), without delivering anything.
+func (c *Conn) Route(subject string) []*Sub {
+	c.mu.Lock()
+	defer c.mu.Unlock()
+	var out []*Sub
+	seenQ := map[string]bool{}
+	for _, s := range c.Subs {
+		if !s.Active || !SubjectMatches(s.Subject, subject) {
+			continue
+		}
+		if s.Queue != "" {
+			if seenQ[s.Queue] {
+				continue
+			}
+			seenQ[s.Queue] = true
+		}
+		out = append(out, s)
+	}
+	return out
+}
+
+// AllSubs returns every subscription attempt that succeeded, active or not.
+func (c *Conn) AllSubs() []*Sub {
+	c.mu.Lock()
+	defer c.mu.Unlock()
+	return append([]*Sub(nil), c.Subs...)
+}
